@@ -59,7 +59,7 @@ def _spec_inputs(k):
         # near twins of specs 0 and 5: forcing / geometry changed in the 8th digit (a finite-difference sensitivity run)
         (0, (4, 4), "double", False, 3, False, 0.0),
         (2, (6, 4), "double", True, 2, False, 0.0),
-        # fluxes of order 1e-7 (mol m-2 s-1), no background: double and its single-precision twin
+        # fluxes of order 1e-8 (kg m-2 s-1), no background: double and its single-precision twin
         (1, (8, 8), "double", False, [1, 4], False, 0.0),
         (1, (8, 8), "single", False, [1, 4], False, 0.0),
     ]
@@ -82,7 +82,7 @@ def _spec_inputs(k):
     if k == 12:
         u, K = u * (1.0 + 1e-8), K * (1.0 - 2e-8)
     if k in (14, 15):
-        q = (q + 0.8) * 1e-7
+        q = (q + 0.8) * 1e-8
     return dict(q=q, z=z, profiles=(u, v, K, 0.7 * K, 1.2 * K), domain=(240.0 * nx * dscale, 180.0 * ny), levels=lv, modes=modes,
                 meas_pt=(240.0 * (nx // 3), 180.0 * (ny // 2)) if fp else (0.0, 0.0), bg=0.0 if k in (14, 15) else 1.0, footprint=fp, analytic=ana,
                 halo=halo, precision=prec)
